@@ -44,29 +44,34 @@ def _classic_safis() -> tuple[list[int], list[int]]:
 
 
 def _default_path_asn4() -> bool:
-    """`AttributeCollection.pack_attribute`: is the default AS_PATH `[local_asn]` built with
-    `make_aspath([...], asn4=True)` (4-octet storage) or with the 2-octet default of make_aspath?"""
-    from exabgp.bgp.message.update.attribute.aspath import ASPath
-    from exabgp.bgp.message.update.attribute.collection import AttributeCollection
+    """Is the default AS_PATH `[local_asn]` of `AttributeCollection.pack_attribute` held in 4-octet storage?
 
-    default_kw = inspect.signature(ASPath.make_aspath).parameters['asn4'].default
-    tree = ast.parse(textwrap.dedent(inspect.getsource(AttributeCollection.pack_attribute)))
-    found = []
-    for node in ast.walk(tree):
-        if isinstance(node, ast.Call) and isinstance(node.func, ast.Attribute) and node.func.attr == 'make_aspath':
-            if node.args and isinstance(node.args[0], ast.List) and node.args[0].elts:
-                kw = {k.arg: k.value for k in node.keywords}
-                if 'asn4' in kw:
-                    assert isinstance(kw['asn4'], ast.Constant) and isinstance(kw['asn4'].value, bool), ast.dump(kw['asn4'])
-                    found.append(bool(kw['asn4'].value))
-                elif len(node.args) > 1:
-                    assert isinstance(node.args[1], ast.Constant), ast.dump(node.args[1])
-                    found.append(bool(node.args[1].value))
-                else:
-                    found.append(bool(default_kw))
-    if len(found) != 1:
-        raise RuntimeError(f'pack_attribute: expected one make_aspath([...]) call for the default path, found {len(found)}')
-    return found[0]
+    Measured, not read: an eBGP session (two real OPENs) whose local AS is 70000 packs a collection without
+    AS_PATH; with 2-octet storage `struct.pack('!H', 70000)` raises (F39), with 4-octet storage the packed
+    attributes carry AS_PATH 02 01 00011170. Where the default is built (inline, a helper, a table of
+    callables) does not matter to this reading."""
+    import struct
+
+    from exabgp.bgp.message.direction import Direction
+    from exabgp.bgp.message.update.attribute.collection import AttributeCollection
+    from exabgp.bgp.message.update.attribute.origin import Origin
+
+    from harness import sessions
+
+    _, n = sessions.make_config(local_as=70000, peer_as=65001, families='ipv4 unicast')
+    _, p = sessions.make_config(local_as=65001, peer_as=70000, families='ipv4 unicast', local_address='127.0.0.2', peer_address='127.0.0.1')
+    out = sessions.negotiate(n, peer_neighbor=p, direction=Direction.OUT)
+    if not out.asn4:
+        raise RuntimeError('rig: ASN4 was not negotiated by the two OPENs')
+    attrs = AttributeCollection()
+    attrs.add(Origin.from_int(0))
+    try:
+        packed = attrs.pack_attribute(out, True)
+    except struct.error:
+        return False
+    if bytes([0x40, 0x02, 0x06, 0x02, 0x01, 0x00, 0x01, 0x11, 0x70]) not in packed:
+        raise RuntimeError(f'pack_attribute: the default AS_PATH of local AS 70000 is not (AS_SEQUENCE 70000): {packed.hex()}')
+    return True
 
 
 def _nexthop_family_guard() -> bool:
